@@ -100,7 +100,7 @@ pub fn assemble(code: &[Value]) -> Vec<u8> {
             "ENDF" => out.push(0x2D),
             "CALL" => out.push(0x2B),
             "LOOPCALL" => out.push(0x2A),
-            "A1" | "A2" | "P0" | "P1" | "P2" | "P5" => out.push(arg as u8),
+            "A1" | "A2" | "P0" | "P1" | "P2" | "P3" | "P5" => out.push(arg as u8),
             "DELTAC" => out.push(0x73),
             "SLOOP" => out.push(0x17),
             "FLIPPT" => out.push(0x80),
@@ -141,7 +141,7 @@ pub fn build_font(funcs: &[Value], glyph: &[Value]) -> Vec<u8> {
     let g = Glyph::Simple(SimpleGlyph { bbox: Bbox { x_min: 0, y_min: 0, x_max: 500, y_max: 600 }, contours: vec![Contour::from(pts)], instructions: code });
     let cvt: Vec<u8> = [0i16, 100, -200, 32767].iter().flat_map(|v| v.to_be_bytes()).collect();
     let mut extra = vec![(Tag::new(b"fpgm"), fpgm)];
-    if glyph.iter().any(|i| matches!(i["op"].as_str(), Some("A1" | "A2" | "P0" | "P1" | "P2" | "P5"))) {
+    if glyph.iter().any(|i| matches!(i["op"].as_str(), Some("A1" | "A2" | "P0" | "P1" | "P2" | "P3" | "P5"))) {
         extra.push((Tag::new(b"cvt "), cvt));
     }
     let opts = SynthOpts { maxp_hint: (4, 4, 4, 2, 8), extra, ..Default::default() };
